@@ -54,7 +54,8 @@ func genRewriteValue(g *Gen) string {
 		}
 		return "NOERROR;" + t + ";" + strings.Join(f, " ")
 	case 8:
-		return "NOERROR;" + Pick(g, []string{"PTR", "ptr"}) + ";" + Pick(g, hosts)
+		// trailing dots: exactly one makes a name fully qualified, the validated string must be the stored one
+		return "NOERROR;" + Pick(g, []string{"PTR", "ptr"}) + ";" + Pick(g, hosts) + Pick(g, []string{"", "", ".", "..", "...", ". "})
 	case 9:
 		if g.Chance(1, 4) {
 			// length boundaries of a TXT character-string (255) and beyond
@@ -111,7 +112,7 @@ func shapeOK(d *rules.DNSRewrite) (ok bool, why string) {
 		}
 	case dns.TypePTR:
 		s, isStr := d.Value.(string)
-		if !isStr || !strings.HasSuffix(s, ".") {
+		if !isStr || !strings.HasSuffix(s, ".") || strings.HasSuffix(s, "..") {
 			return false, "PTR value is not a fully-qualified name"
 		}
 	case dns.TypeTXT:
